@@ -158,6 +158,16 @@ Definition dispatch (cfg : rule_cfg) (k : msg_kind) (h : hmap) : hmap :=
   | RespConnect => h
   end.
 
+(* What an upstream proxy sees on a CONNECT (internal/martian/proxy_connect.go
+   connect + dialvia/http.go DialContextR + command/run/run.go
+   configureTransportProxy): the client's CONNECT header after the connect rules
+   (request modifier), over which the result of applying the connect rules to an
+   EMPTY header (GetProxyConnectHeader) is copied key by key (maps.Copy). *)
+Definition overlay (base over : hmap) : hmap :=
+  fold_left (fun h kv => raw_set (fst kv) (snd kv) h) over base.
+Definition connect_upstream_view (cfg : rule_cfg) (h : hmap) : hmap :=
+  overlay (apply_rules (connect_rules cfg) h) (apply_rules (connect_rules cfg) []).
+
 (* ---------- documented meaning, stated pointwise on lookups ---------- *)
 (* spec_get r h k = what key k must map to after rule r. *)
 Definition spec_get (r : rule) (h : hmap) (k : str) : option (list str) :=
